@@ -1,6 +1,16 @@
 #!/bin/bash
-# Builds every check binary offline from files on disk (harness + /repo with hooks on).
+# Builds everything the checks need, offline, from files on disk (harness + /repo with the hooks cfg on).
+# Each check rebuilds incrementally by itself afterwards; this only pre-warms the three build trees.
 set -e
 export CARGO_NET_OFFLINE=true
-cd /verif/harness
-cargo build --profile verif --bins 2>&1 | tail -5
+mkdir -p /verif/target
+# 1. one binary per property (+ shared lib)
+( cd /verif/harness && cargo build --profile verif --bins 2>&1 | tail -3 )
+# 2. c2patool for C32 (plain build, no hooks cfg; invoked from /repo so the harness cargo config is not picked up)
+( cd /repo && env -u RUSTFLAGS cargo build --offline -p c2patool --manifest-path /repo/Cargo.toml --target-dir /verif/target/c2patool 2>&1 | tail -2 ) || echo "c2patool pre-build failed (C32 will retry)"
+# 3. fuzz targets for C10: ASan + debug assertions, and a plain optimised build
+[ -f /verif/harness/fuzz/Cargo.lock ] || cp /verif/harness/Cargo.lock /verif/harness/fuzz/Cargo.lock
+( cd /verif/harness && RUSTFLAGS="--cfg contentauth_c2pa_rs_verif" cargo +nightly fuzz build --fuzz-dir fuzz --target-dir /verif/target/fuzz 2>&1 | tail -2 ) &
+( cd /verif/harness && RUSTFLAGS="--cfg contentauth_c2pa_rs_verif" cargo +nightly fuzz build --fuzz-dir fuzz --target-dir /verif/target/fuzz-rel -O -s none --no-cfg-fuzzing 2>&1 | tail -2 ) &
+wait
+echo "setup done"
